@@ -154,8 +154,10 @@ def gen_program(rng, spec, disabled=()):
       if depth < MAX_DEPTH and (r < 0.58 or (j == 0 and depth < target)):
         out.append(gen_with(depth, state))
       elif r < 0.70:
-        out.append({'k': 'try', 'catch': rng.choice(['E1', 'E2', 'any', 'any']),
-                    'body': block(depth, state)})
+        body = block(depth, state) if budget[0] > 0 else []
+        if body and not (len(body) == 1 and body[0]['k'] == 'try'):
+          out.append({'k': 'try', 'catch': rng.choice(['E1', 'E2', 'any', 'any']),
+                      'body': body})
       elif r < 0.82:
         kind = rng.choice(['E1', 'E2', 'E2', 'E3'])
         out.append({'k': 'raise', 'exc': kind,
@@ -267,7 +269,7 @@ class Exec:
         self.counters['thread_model_checks'] += 1
         if other_in_scope:
           self.counters['thread_checks_while_other_in_scope'] += 1
-      if got != exp:
+      if not S.match(got, exp):
         bad.setdefault(o.mgr, []).append((name, got, exp))
     for mgr, items in bad.items():
       detail = '; '.join(f'{n}: observed {g!r}, model {e!r}' for n, g, e in items)
@@ -505,8 +507,7 @@ class Exec:
       self.report('unexpected-exception', 'fresh-thread-observer', repr(r[1]))
       return
     default = S.default_state()
-    env0 = S.Env(tid=-1, process_ok=False, solo=False)
-    env0.foreign_process_de = True
+    env0 = S.ExpectEnv(self.env)
     for name, got in r[1].items():
       o = S.OBS_BY_NAME[name]
       if name in self.muted:
@@ -515,7 +516,7 @@ class Exec:
       if exp == S.DONTCARE:
         continue
       self.counters['fresh_thread_observer_checks'] += 1
-      if got != exp:
+      if not S.match(got, exp):
         self.report('thread-isolation', o.mgr, f'a thread started inside the '
                     f'blocks sees {name}: {got!r}, default {exp!r}')
         self.muted.add(name)
@@ -532,8 +533,7 @@ class Exec:
       return
     st = S.default_state()
     st['ctxov'] = self.state['ctxov']
-    env0 = S.Env(tid=-1, process_ok=False, solo=False)
-    env0.foreign_process_de = True
+    env0 = S.ExpectEnv(self.env)
     for name, got in r[1].items():
       o = S.OBS_BY_NAME[name]
       if name in self.muted:
@@ -542,7 +542,7 @@ class Exec:
       if exp == S.DONTCARE:
         continue
       self.counters['propagation_observer_checks'] += 1
-      if got != exp:
+      if not S.match(got, exp):
         clause = ('explicit-propagation' if o.mgr == 'contextual_override'
                   else 'thread-isolation')
         self.report(clause, 'with_contextual_override' if clause ==
@@ -623,10 +623,10 @@ def process_baseline(ctx):
   st = S.default_state()
   for name, got in view.items():
     o = S.OBS_BY_NAME[name]
-    if got != o.expect(st, env) and o.mgr not in ctx.c17_disabled:
+    if not S.match(got, o.expect(st, env)) and o.mgr not in ctx.c17_disabled:
       S.heal_process_state()
       again = _run_in_thread(fresh_process_view)
-      if again[name] != o.expect(st, env):
+      if not S.match(again[name], o.expect(st, env)):
         ctx.c17_disabled.add(o.mgr)
         ctx.violation('default-state', o.mgr, f'process-wide residue at the start '
                       f'of a case: {name} is {got!r}', None)
